@@ -75,8 +75,23 @@ def flowAt (v : Commodity) (days : List Day) (b : Account) (F D : Int) : Option 
   (((userPostings days).filter (fun (x : Int × Posting) => decide (F < x.1) && decide (x.1 ≤ D) && decide (x.2.account = b))).mapM
     (fun x => bookingValue v days x.1 x.2)).map List.sum
 
+/-- the bookings on the accounts selected by `sel` dated in `(F, D]`, each valued at the price of its own day, summed
+(`flowAt v days b` is `flowSel v days (· = b)`) -/
+def flowSel (v : Commodity) (days : List Day) (sel : Account → Bool) (F D : Int) : Option Rat :=
+  (((userPostings days).filter (fun (x : Int × Posting) => decide (F < x.1) && decide (x.1 ≤ D) && sel x.2.account)).mapM
+    (fun x => bookingValue v days x.1 x.2)).map List.sum
+
 def alAccounts (days : List Day) : List Account :=
   (((userPostings days).map (fun x => x.2.account)).filter (·.isAL)).eraseDups
+
+/-- the asset/liability accounts of the journal whose value adjustments are booked against the income account `g`
+(`Registry.ValuationAccountFor`: `Income:` + the account's path without its first segment) -/
+def mirrored (days : List Day) (g : Account) : List Account :=
+  (alAccounts days).filter (fun a => decide (valuationAccountFor a = g))
+
+/-- … and their bookings in `(F, D]` valued at booking-day prices, summed over the accounts -/
+def flowOver (v : Commodity) (days : List Day) (S : List Account) (F D : Int) : Option Rat :=
+  (S.mapM (fun a => flowAt v days a F D)).map List.sum
 
 /-! ### mapped / collapsed rows (`-m`, `--remap`, `--account`) and per-commodity rows (`-s`) -/
 
